@@ -30,14 +30,22 @@ RULE = (
     'file it is applied to: copy; sliceDimensions over a non-empty subset of '
     'TSTEP/LAY/ROW/COL with ints in [-n,n-1] or non-empty slices (step '
     'None/1/2/full reverse); subsetVariables (non-empty, any order); '
-    'renameVariable to a fresh name; applyAlongDimensions with '
+    'renameVariable to a fresh name (1/2), to a name of 17-24 characters '
+    '(accepted by the library, which leaves the variable unlisted; 1/4) or '
+    'onto the name of another listed variable (which it replaces; 1/4) - '
+    'the last two lower the variable count while a TFLAG exists; '
+    'applyAlongDimensions with '
     'mean/sum/min/max/std over any non-empty subset of TSTEP/LAY/ROW/COL/'
     'PERIM or a shape-deterministic callable on LAY; eval of an assignment '
     'to a fresh name (copyall False/True); mask by a scalar predicate; stack '
-    'on TSTEP with itself / a copy / a TSTEP window of itself; interpSigma '
+    'along TSTEP (half) or ROW/COL with itself / a copy / a window of itself '
+    '/ 2-3 tiles cut with sliceDimensions and re-assembled in order (single '
+    'operand or list), along LAY with re-assembled tiles only (abutting '
+    'level edges); one source in eight also holds a standard-dimension '
+    'variable with an over-long (unlistable) name; interpSigma '
     '(linear needs >=2 layers, conserve) to 1-6 new layers.  Half of the '
     'chains are drawn from the complement of the input classes of the known '
-    'findings.  Oracle after the construction and after every operation that '
+    'findings (currently: no stack along LAY).  Oracle after the construction and after every operation that '
     'returns: NVARS == len(VAR-LIST)/16 == number of 16-wide names in '
     'VAR-LIST == len(dimension VAR) == TFLAG.shape[1]; VAR-LIST length is a '
     'multiple of 16; every listed name is a variable with the standard '
@@ -58,7 +66,14 @@ ASSUMPTIONS = [
     'variable names ending in TFLAG and names equal to IOAPI attribute or '
     'dimension names are outside the domain',
     'subsetting to zero variables and slices selecting nothing are outside '
-    'the domain',
+    'the domain; variables with names longer than 16 characters cannot be '
+    'listed and are never the argument of subset/rename/eval',
+    'stack along LAY is in the domain only for operands whose level edges '
+    'abut (pieces of one file, in order): otherwise no array of NLAYS+1 '
+    'edges describes the result and the statement cannot be met',
+    'eval overwriting an existing variable and zipped ROW/COL index lists '
+    '(which unlist every variable: the excluded zero-variable case) are '
+    'outside the domain',
     'an operation that raises is not a result (C01 judges completion)',
     'audit_meta is used only as a second opinion; it raises KeyError on '
     'boundary files that carry NROWS/NCOLS (counted as audit-raised)']
@@ -211,6 +226,8 @@ def step_class(step):
         if isinstance(lay, list):
             k += ':LAYcall'
         return k
+    if op == 'stack' and a.get('dim', 'TSTEP') != 'TSTEP':
+        return 'stack:' + a['dim']
     return op
 
 
@@ -230,6 +247,8 @@ class Machine(object):
         if any(len(v) == 16 for v in spec['vars']):
             r.label('name16')
         r.label('prep:' + I.prep_kind(prep))
+        if spec.get('longvar'):
+            r.label('longvar')
         exc, f = attempt(I.build, spec, prep)
         if exc is not None:
             r.label('raised:build')
@@ -250,8 +269,11 @@ class Machine(object):
     def state(self):
         f = self.cur
         dims = dict((k, len(d)) for k, d in f.dimensions.items())
+        # variables an IOAPI file can list: standard dimensions and a name
+        # of at most 16 characters (longer names are accepted but unlisted)
         datavars = [k for k in f.variables.keys()
-                    if tuple(f.variables[k].dimensions) == self.std]
+                    if tuple(f.variables[k].dimensions) == self.std and
+                    len(k) <= 16]
         extra = [k for k in f.variables.keys()
                  if k not in datavars and k != 'TFLAG']
         return dict(dims=dims, datavars=datavars, allvars=list(
@@ -276,6 +298,12 @@ class Machine(object):
         self.steps.append(step)
         f = self.cur
         self.r.label('op:' + op)
+        if op == 'rename':
+            self.r.label('rename:' + a.get('kind', 'fresh'))
+        if op == 'stack':
+            self.r.label('stack:%s:%s' % (a.get('dim', 'TSTEP'), a['with']
+                                          if isinstance(a['with'], str)
+                                          else a['with'][0]))
         exc, out = attempt(EXEC[op], f, a)
         if exc is not None:
             self.r.label('raised:' + op)
@@ -336,13 +364,20 @@ def _apply(f, a):
 
 def _stack(f, a):
     w = a['with']
+    dim = a.get('dim', 'TSTEP')
     if w == 'self':
-        other = f
-    elif w == 'copy':
-        other = f.copy()
-    else:
-        other = f.sliceDimensions(TSTEP=slice(w[1], w[2]))
-    return f.stack(other, 'TSTEP')
+        return f.stack(f, dim)
+    if w == 'copy':
+        return f.stack(f.copy(), dim)
+    if w[0] == 'slice':
+        return f.stack(f.sliceDimensions(**{dim: slice(w[1], w[2])}), dim)
+    # ['tiles', [c1, c2, ...]]: the file is cut at the given indices with
+    # sliceDimensions and re-assembled in order (list form for >2 pieces)
+    cuts = [0] + list(w[1]) + [len(f.dimensions[dim])]
+    parts = [f.sliceDimensions(**{dim: slice(lo, hi)})
+             for lo, hi in zip(cuts[:-1], cuts[1:])]
+    rest = parts[1:]
+    return parts[0].stack(rest[0] if len(rest) == 1 else rest, dim)
 
 
 EXEC = {
@@ -393,12 +428,7 @@ def draw_step(draw, s, avoid):
     ops = ['copy', 'slice', 'slice', 'slice', 'apply', 'apply', 'apply',
            'mask', 'stack', 'stack', 'interp', 'interp']
     if dv:
-        ops += ['subset', 'subset', 'eval', 'eval']
-        if not avoid:
-            ops += ['rename', 'rename']
-    if avoid and s['extra']:
-        # known: copy/stack of a file holding non-IOAPI variables
-        ops = [o for o in ops if o not in ('copy', 'stack')]
+        ops += ['subset', 'subset', 'eval', 'eval', 'rename', 'rename']
     op = draw(st.sampled_from(ops))
     if op == 'copy':
         return ['copy', {}]
@@ -412,25 +442,41 @@ def draw_step(draw, s, avoid):
         k = draw(st.integers(1, len(dv)))
         return ['subset', {'names': list(draw(st.permutations(dv))[:k])}]
     if op == 'rename':
-        return ['rename', {'old': draw(st.sampled_from(dv)),
-                           'new': fresh_name(draw, s['allvars'], True)}]
+        # fresh name (1/2); a name of 17-24 characters, which the library
+        # accepts and leaves unlisted (1/4, only while another listed
+        # variable remains); the name of another listed variable, which is
+        # thereby replaced (1/4).  The last two LOWER the variable count.
+        old = draw(st.sampled_from(dv))
+        kind = draw(st.sampled_from(['fresh', 'fresh', 'long', 'onto']))
+        if len(dv) < 2:
+            kind = 'fresh'
+        if kind == 'long':
+            free = [n for n in I.LONG_NAMES + ('RENAMED_TO_AN_OVERLONG_1',)
+                    if n not in s['allvars']]
+            if not free:
+                kind = 'fresh'
+            else:
+                new = draw(st.sampled_from(free))
+        if kind == 'onto':
+            new = draw(st.sampled_from([n for n in dv if n != old]))
+        if kind == 'fresh':
+            new = fresh_name(draw, s['allvars'], True)
+        return ['rename', {'old': old, 'new': new, 'kind': kind}]
     if op == 'apply':
         cand = [d for d in ('TSTEP', 'LAY', 'ROW', 'COL', 'PERIM')
-                if d in dims and not (avoid and d == 'TSTEP')]
+                if d in dims]
         k = draw(st.integers(1, min(3, len(cand))))
         chosen = draw(st.permutations(cand))[:k]
         out = {}
         for d in chosen:
             if d == 'LAY' and draw(st.integers(0, 2)) == 0:
                 names = sorted(CALLABLES)
-                if avoid:
-                    names = ['mean1']
                 out[d] = ['call', draw(st.sampled_from(names))]
             else:
                 out[d] = draw(st.sampled_from(REDUCERS))
         return ['apply', {'dims': out}]
     if op == 'eval':
-        new = fresh_name(draw, s['allvars'], not avoid)
+        new = fresh_name(draw, s['allvars'], True)
         a = draw(st.sampled_from(dv))
         b = draw(st.sampled_from(dv))
         forms = ['%s = %s[:] * 2' % (new, a),
@@ -439,24 +485,38 @@ def draw_step(draw, s, avoid):
         if not s['on_disk']:
             forms += ['%s = %s * 2' % (new, a), '%s = %s - %s' % (new, a, b)]
         copyall = draw(st.booleans())
-        if avoid and s['extra']:
-            copyall = False     # eval(copyall=True) copies (known, above)
         return ['eval', {'expr': draw(st.sampled_from(forms)),
                          'copyall': copyall}]
     if op == 'mask':
         return ['mask', {'kind': draw(st.sampled_from(MASKS)),
                          'value': draw(st.integers(0, 96))}]
     if op == 'stack':
-        nt = dims['TSTEP']
-        kind = draw(st.integers(0, 2))
-        if kind == 0:
-            w = 'self'
-        elif kind == 1:
-            w = 'copy'
+        # half along TSTEP; otherwise along ROW/COL (copy, a window of
+        # itself, or tiles cut with sliceDimensions and re-assembled) or
+        # along LAY (tiles only: the level edges of the pieces abut, which
+        # is the only case in which n+1 edges describe the result)
+        cand = [d for d in ('ROW', 'COL') if d in dims]
+        if dims.get('LAY', 0) >= 2 and not avoid:
+            cand.append('LAY')
+        dim = 'TSTEP'
+        if cand and draw(st.booleans()):
+            dim = draw(st.sampled_from(cand))
+        n = dims[dim]
+        kinds = ['self', 'copy', 'slice'] if dim != 'LAY' else []
+        if n >= 2 and dim != 'TSTEP':
+            kinds += ['tiles', 'tiles']
+        kind = draw(st.sampled_from(kinds))
+        if kind in ('self', 'copy'):
+            w = kind
+        elif kind == 'slice':
+            a = draw(st.integers(0, n - 1))
+            w = ['slice', a, draw(st.integers(a + 1, n))]
         else:
-            a = draw(st.integers(0, nt - 1))
-            w = ['slice', a, draw(st.integers(a + 1, nt))]
-        return ['stack', {'with': w}]
+            k = draw(st.integers(1, min(2, n - 1)))
+            w = ['tiles', sorted(draw(st.lists(st.integers(1, n - 1),
+                                               min_size=k, max_size=k,
+                                               unique=True)))]
+        return ['stack', {'with': w, 'dim': dim}]
     if op == 'interp':
         nz = draw(st.integers(1, 6))
         inner = draw(st.lists(st.integers(1, 63), min_size=nz - 1,
@@ -485,13 +545,7 @@ def _tier():
 def interactive(draw):
     r = Result()
     avoid = draw(st.booleans())
-    spec = draw(I.ioapispecs(max_steps=6, cross_share=0))
-    if avoid and any(len(v) == 16 for v in spec['vars']):
-        # known: 16-character names; rename them inside the complement share
-        spec = dict(spec, vars=[v if len(v) < 16 else v[:15]
-                                for v in spec['vars']])
-        if len(set(spec['vars'])) < len(spec['vars']):
-            spec['vars'] = ['V%d' % i for i in range(len(spec['vars']))]
+    spec = draw(I.ioapispecs(max_steps=6, cross_share=0, longvar_share=8))
     if avoid:
         r.label('complement-of-known')
     nsteps = draw(st.integers(1, MAXSTEPS[_tier()]))
@@ -568,3 +622,7 @@ known.register('C10-lay-callable-vglvls', lambda j, f: (
 known.register('C10-name16-split', lambda j, f: (
     _has16(j) and f.clause in COUNT_CLAUSES + ('listed-missing',
                                                'varlist-width')))
+
+# ioapi stack along LAY joins the data but keeps the first operand's VGLVLS
+known.register('C10-stack-lay-vglvls', lambda j, f: (
+    f.klass == 'stack:LAY' and f.clause == 'vglvls-len'))
